@@ -3,7 +3,7 @@
    inlined constants); N, positive and nat stay the extracted inductive datatypes. *)
 Require Extraction.
 Require Import ExtrOcamlBasic.
-Require Import EV.Base EV.Access EV.Query EV.SlotMap EV.Reserve EV.HList EV.SparseMap EV.World.
+Require Import EV.Base EV.Access EV.Query EV.SlotMap EV.Reserve EV.HList EV.SparseMap EV.BitSet EV.World.
 Extraction Language OCaml.
 Extraction "model.ml"
   world0 script_beh op_spawn op_insert op_remove op_despawn op_send op_send_to op_get op_drop
@@ -14,4 +14,5 @@ Extraction "model.ml"
   sm_empty insert_with sm_remove sm_get next_key_iter nki_next get_by_index
   hl_new hl_insert hl_remove
   sp_empty sp_insert sp_remove sp_get sp_shrink sp_keys sp_values
+  bs_insert bs_remove bs_contains bs_or bs_disjoint bs_is_empty bs_shrink
   slab_iter set_h set_hst_fields.
